@@ -15,7 +15,8 @@ TECHNIQUE = ("explicit-state breadth-first search over mouse/key event histories
              "model on every transition and on the hand-over to modal-parameter extraction at every state")
 LEVEL_TEXT = ("every event history up to the stated depth over the stated click grid is driven through the real dialog and compared with the "
               "list-of-pairs model after every event; in every state reached the dialog is closed and the pairs handed to extraction and the "
-              "extracted modes are compared with the model")
+              "extracted modes are compared with the model; the dialog is opened with the default frequency band and with non-default bands "
+              "(clicks and poles outside the band) - the band variants over a smaller click alphabet")
 RULE = ("a history is a sequence of events (press/release shift, click(button, x, y)) on a fresh dialog; non-trivial = at "
         "least two picks at different model orders (or lines) in non-ascending frequency order, or a deselection after "
         "two picks; distinct by (variant, event sequence)")
@@ -24,6 +25,10 @@ ASSUMPTIONS = [
     "a pick at a model order that holds no retained pole cannot select anything: the handler may raise (a live session swallows it) but the selection must be left unchanged",
     "click coordinates keep away from exact ties (nearest order, nearest pole); ties between identical selected entries accept either",
     "x_data_pole / y_data_pole (scratch written before read inside one handler) are excluded from the canonical state; the un-merged congruence pass checks that exclusion",
+    "the frequency band the dialog is opened with (freqlim of mpe_from_plot) is a variant axis: the default band, and bands that leave click abscissae and "
+    "retained poles / frequency lines outside on one or on both sides; the band only sets the initial view (the toolbar pans and zooms, so the abscissa of "
+    "a click is not bound by it) and the model does not know it: nearest means nearest to the click. Clicks outside the band are delivered with their "
+    "data coordinates like all other clicks (event.xdata set, the view itself is not moved)",
 ]
 
 # ---- designed tables --------------------------------------------------------------------------
@@ -39,6 +44,35 @@ FS = 20.0
 # FDD variant: 33 lines on [0, 10] Hz, two channels
 NF = 33
 FREQ = np.linspace(0, FS / 2, NF)
+# variant = (dialog kind, ordmin, frequency band the dialog is opened with; None = the default band (0, fs/2))
+# The band variants: (3, 7) leaves click abscissae AND poles outside on both sides (only the 5.x Hz poles are inside);
+# (0, 8.5) leaves the 9.0 / 9.1 Hz poles and the clicks at 9.04 / 9.3 outside on the upper side only;
+# (2.5, 9.2) leaves the clicks at 0.0 / 2.1 (and the frequency lines / poles below 2.5 Hz) outside below, and above the click at 9.3 and
+# the lines from 9.375 Hz on. On the singular-value plot every click outside a band has lines outside the band nearest to it.
+VARIANTS = {
+    "SSI": ("SSI", 0, None),
+    "pLSCF": ("pLSCF", 0, None),
+    "FDD": ("FDD", 0, None),
+    "SSI-ordmin2": ("SSI", 2, None),
+    "SSI-band3-7": ("SSI", 0, (3.0, 7.0)),
+    "pLSCF-band0-8.5": ("pLSCF", 0, (0.0, 8.5)),
+    "FDD-band3-7": ("FDD", 0, (3.0, 7.0)),
+    "FDD-band2.5-9.2": ("FDD", 0, (2.5, 9.2)),
+}
+XB = [0.0] + XS      # click abscissae of the band variants
+
+
+def kind_of(variant):
+    return VARIANTS[variant][0]
+
+
+def band_of(variant):
+    return VARIANTS[variant][2]
+
+
+def outside(variant, x):
+    b = band_of(variant)
+    return b is not None and not (b[0] <= x <= b[1])
 
 
 def fdd_tables():
@@ -57,8 +91,18 @@ def fdd_tables():
 
 
 def events_for(variant, thorough):
+    kind = kind_of(variant)
     ev = [("press",), ("release",)]
-    if thorough:
+    if band_of(variant) is not None:
+        # band variants: a smaller alphabet whose abscissae XB lie on both sides of and inside the bands; picks at the two
+        # model orders that hold poles at 2, 5 and 9 Hz, deselect-nearest at every abscissa, deselect-one inside and outside
+        ys = YS if thorough else ((YS[2],) if kind == "FDD" else (YS[2], YS[3]))
+        ev += [("click", 1, x, y) for x in XB for y in ys]
+        ev += [("click", 2, x, YS[1]) for x in XB]
+        ev += [("click", 3, XS[3], YS[0])]
+        if thorough:
+            ev += [("click", 1, XS[3], Y_EMPTY), ("click", 3, XS[1], YS[1])]
+    elif thorough:
         ev += [("click", b, x, y) for b in (1, 3, 2) for x in XS for y in YS]
         ev += [("click", 1, x, Y_EMPTY) for x in (XS[1], XS[3])]
         ev += [("click", b, 0.0, y) for b in (1, 2) for y in (YS[0], YS[3])]
@@ -68,7 +112,7 @@ def events_for(variant, thorough):
         ev += [("click", 1, 0.0, YS[3]), ("click", 2, 0.0, YS[1])]      # exactly at the left edge of the default frequency range
         ev += [("click", 3, XS[1], YS[1]), ("click", 3, XS[3], YS[0])]
         ev += [("click", 2, x, YS[1]) for x in XS]
-    if variant == "FDD":
+    if kind == "FDD":
         # y is in dB on the singular-value plot; it must not matter
         ev = [e if e[0] != "click" else ("click", e[1], e[2], -10.0 * e[3]) for e in ev]
         seen, out = set(), []
@@ -190,14 +234,17 @@ class Model:
 
     def __init__(self, variant):
         self.variant = variant
+        self.kind = kind_of(variant)      # the band the dialog is opened with is deliberately unknown to the model
         self.shift = False
         self.sel = []
         self.empty_pick = False
+        self.last_new = None
 
     def step(self, ev):
         """Returns the list of admissible next selections (sorted tuples), or None if outside the statement."""
         cur = tuple(sorted(self.sel))
         self.empty_pick = False
+        self.last_new = None
         if ev[0] == "press":
             self.shift = True
             return [cur]
@@ -208,7 +255,7 @@ class Model:
             return [cur]
         b, x, y = ev[1:]
         if b == 1:
-            if self.variant == "FDD":
+            if self.kind == "FDD":
                 i = int(np.argmin(np.abs(FREQ - x)))
                 new = (float(FREQ[i]), i)
             else:
@@ -219,6 +266,7 @@ class Model:
                     return [cur]
                 r = int(np.nanargmin(np.abs(col - x)))
                 new = (float(col[r]), o)
+            self.last_new = new
             return [tuple(sorted(self.sel + [new]))]
         if not self.sel:
             return [()]
@@ -237,12 +285,13 @@ def build(variant):
     from pyoma2.setup import SingleSetup
 
     ss = SingleSetup(np.zeros((16, 2)), FS)
-    if variant in ("SSI", "SSI-ordmin2"):
+    kind, ordmin, _ = VARIANTS[variant]
+    if kind == "SSI":
         # ordmin only limits which orders are labelled/charted as stable; the pole table still has a column per model order,
         # and a pick at order k means column k whatever ordmin is
-        a = SSIcov(name="alg", br=3, ordmax=3, ordmin=2 if variant == "SSI-ordmin2" else 0)
+        a = SSIcov(name="alg", br=3, ordmax=3, ordmin=ordmin)
         res = SSIResult(Fn_poles=FN.copy(), Xi_poles=XI.copy(), Phi_poles=PHI.copy(), Lab=LAB.copy())
-    elif variant == "pLSCF":
+    elif kind == "pLSCF":
         a = pLSCF(name="alg", ordmax=3)
         res = pLSCFResult(Fn_poles=FN.copy(), Xi_poles=XI.copy(), Phi_poles=PHI.copy(), Lab=LAB.copy())
     else:
@@ -255,7 +304,7 @@ def build(variant):
 
 
 def observe(o, variant):
-    ind = o.freq_ind if variant == "FDD" else o.pole_ind
+    ind = o.freq_ind if kind_of(variant) == "FDD" else o.pole_ind
     if len(o.sel_freq) != len(ind):
         return None
     return tuple(sorted(zip([float(f) for f in o.sel_freq], [int(p) for p in ind])))
@@ -325,10 +374,17 @@ def run_history(variant, events, hist, judge_all=False):
                                 f"{variant} dialog holds {got} after {label(i)}; the list-of-pairs model admits {adm[:3]}", case)
                 else:
                     t.outcomes[kind] += 1
+                    if ev[0] == "click" and m.shift and outside(variant, ev[2]):
+                        # vacuity monitors of the band variants (ground truth only: the click, the band, the designed table)
+                        t.outcomes[f"{kind}-outside-band"] += 1
+                        if kind == "pick" and m.last_new is not None and outside(variant, m.last_new[0]):
+                            t.outcomes["pick-of-pole-outside-band"] += 1
+                        if kind == "deselect-nearest" and len(m.sel) >= 2:
+                            t.outcomes["deselect-nearest-outside-band-among-several"] += 1
                 if bool(o.shift_is_held) != m.shift:
                     t.violation(f"modifier-state:{variant}", f"{variant}: shift_is_held={o.shift_is_held} after {label(i)}", case)
-                if variant == "FDD" and got is not None and any(abs(f - FREQ[k]) > 1e-12 for f, k in got):
-                    t.violation("selection:FDD:frequency-not-its-line", f"FDD: selected frequency is not the frequency of its line index: {got}", case)
+                if kind_of(variant) == "FDD" and got is not None and any(abs(f - FREQ[k]) > 1e-12 for f, k in got):
+                    t.violation(f"selection:{variant}:frequency-not-its-line", f"{variant}: selected frequency is not the frequency of its line index: {got}", case)
             if got is None or got not in adm:
                 out["stop"] = True
                 return
@@ -342,10 +398,11 @@ def run_history(variant, events, hist, judge_all=False):
     ss, a = build(variant)
     err = None
     try:
-        if variant == "FDD":
-            ss.mpe_from_plot("alg", freqlim=(0, 10), DF=0.4)
+        band = band_of(variant) or (0, 10)
+        if kind_of(variant) == "FDD":
+            ss.mpe_from_plot("alg", freqlim=band, DF=0.4)
         else:
-            ss.mpe_from_plot("alg", freqlim=(0, 10), rtol=1e-6)
+            ss.mpe_from_plot("alg", freqlim=band, rtol=1e-6)
     except Exception as e:
         err = e
     plt.close("all")
@@ -368,11 +425,11 @@ def run_history(variant, events, hist, judge_all=False):
                 t.violation(f"handover-missing:{variant}", f"{variant}: extraction was never called with selection {fin}", case)
             else:
                 name, args, kw = handed
-                if variant == "FDD":
+                if kind_of(variant) == "FDD":
                     sf = kw.get("sel_freq", args[3] if len(args) > 3 else None)
                     got = sorted(float(f) for f in np.atleast_1d(sf))
                     if got != [f for f, _ in fin]:
-                        t.violation("handover:FDD", f"FDD: handed {got} to extraction, selection was {fin}", case)
+                        t.violation(f"handover:{variant}", f"{variant}: handed {got} to extraction, selection was {fin}", case)
                     else:
                         t.outcomes["handover-ok"] += 1
                 else:
@@ -408,11 +465,22 @@ def _runner(hist):
     return run_history(_CFG["variant"], _CFG["events"], hist)
 
 
+def plan_for(thorough):
+    """(variant, depth of the merged BFS, depth of the un-merged pass). Depth 4 is the shortest history in which deselect-nearest
+    has two selected entries to choose from (press, pick, pick, deselect). The quick tier has one band variant per click handler,
+    with different bands: the stabilisation chart at depth 4, the singular-value plot at depth 3 (deselect-nearest with one entry);
+    the thorough tier has all four band variants, deeper and over the larger band alphabet."""
+    if not thorough:
+        return [("SSI", 4, 2), ("pLSCF", 3, 2), ("FDD", 4, 2), ("SSI-ordmin2", 3, 1),
+                ("SSI-band3-7", 4, 1), ("FDD-band2.5-9.2", 3, 1)]
+    return [("SSI", 5, 3), ("pLSCF", 5, 3), ("FDD", 5, 3), ("SSI-ordmin2", 4, 2),
+            ("SSI-band3-7", 5, 2), ("pLSCF-band0-8.5", 4, 2), ("FDD-band3-7", 4, 2), ("FDD-band2.5-9.2", 5, 2)]
+
+
 def explore(ctx):
-    plan = ([("SSI", 4, 2), ("pLSCF", 3, 2), ("FDD", 4, 2), ("SSI-ordmin2", 3, 1)] if not ctx.thorough
-            else [("SSI", 5, 3), ("pLSCF", 5, 3), ("FDD", 5, 3), ("SSI-ordmin2", 4, 2)])
-    ctx.bounds = {"tables": {"Fn_poles": FN, "freq_lines_FDD": NF}, "click_x": XS, "click_y": YS, "variants": [
-        {"variant": v, "events": [list(e) for e in events_for(v, ctx.thorough)], "merged_bfs_depth": d, "unmerged_depth": u} for v, d, u in plan]}
+    plan = plan_for(ctx.thorough)
+    ctx.bounds = {"tables": {"Fn_poles": FN, "freq_lines_FDD": NF}, "click_x": XS, "click_y": YS, "click_x_band_variants": XB, "variants": [
+        {"variant": v, "dialog": kind_of(v), "freqlim": band_of(v) or "default (0, fs/2)", "events": [list(e) for e in events_for(v, ctx.thorough)], "merged_bfs_depth": d, "unmerged_depth": u} for v, d, u in plan]}
     for variant, depth, ud in plan:
         events = events_for(variant, ctx.thorough)
         _CFG.update(variant=variant, events=events)
@@ -424,7 +492,8 @@ def explore(ctx):
         for h0, h1, evs in broken:
             ctx.tally.violation(f"hidden-state:{variant}", f"histories {h0} and {h1} reach the same dialog state but differ after events {evs}",
                                 {"variant": variant, "events": [events[i] for i in h1], "other": [events[i] for i in h0]})
-    ctx.require("pick", "pick-on-empty-order", "deselect-one", "deselect-nearest", "click-without-modifier", "handover-ok", "extracted-ok")
+    ctx.require("pick", "pick-on-empty-order", "deselect-one", "deselect-nearest", "click-without-modifier", "handover-ok", "extracted-ok",
+                "pick-outside-band", "pick-of-pole-outside-band", "deselect-nearest-outside-band", "deselect-nearest-outside-band-among-several")
 
 
 def replay(case):
